@@ -38,8 +38,9 @@ func GenTable(rng *rand.Rand, format string, maxLines int) *Table {
 	default:
 		nLines = rng.Intn(maxLines + 1)
 	}
-	hosts := []string{"h1", "h2", "h3", "h4"}[:1+rng.Intn(4)]
-	statuses := []string{"200", "404", "500", "301"}[:1+rng.Intn(4)]
+	// (values of two fields whose concatenations coincide: h1+200 = h12+00)
+	hosts := []string{"h1", "h12", "h2", "h3"}[:1+rng.Intn(4)]
+	statuses := []string{"200", "00", "404", "2200"}[:1+rng.Intn(4)]
 	users := []string{"alice", "u  2", "bob", "Oct  4 x", "carol", "dave", "eve9", "u 1"}[:1+rng.Intn(8)]
 	paths := []string{"/", "/login", "/api/v1/items", "/api/v2", "/a-b_c", "select", "from", "/x?y=1"}
 	type fdef struct {
@@ -103,7 +104,9 @@ func GenTable(rng *rand.Rand, format string, maxLines int) *Table {
 	}
 	tables := []string{"STATS", "WEB", "APP2"}
 	t.Name = pick(rng, tables)
-	other := pick(rng, tables)
+	// lines of other tables in the same file, among them tables whose name
+	// begins with (or is the beginning of) this table's name
+	other := pick(rng, []string{pick(rng, tables), t.Name + "X", t.Name + "2", t.Name[:len(t.Name)-1]})
 	switch format {
 	case "default":
 		for i := 0; i < nLines; i++ {
@@ -116,14 +119,18 @@ func GenTable(rng *rand.Rand, format string, maxLines int) *Table {
 			switch rng.Intn(12) {
 			case 0:
 				sev = "WARN"
-			case 1:
+			case 1, 2:
 				name = other
 			}
 			parts := []string{sev, tm, fmt.Sprint(100 + rng.Intn(3)), "main.go:" + fmt.Sprint(rng.Intn(90)),
 				"8", fmt.Sprint(10 + rng.Intn(5)), "7", "0.21", "471h0m21s", "MAPREDUCE:" + name}
 			nkv := 0
-			for _, d := range defs {
-				if rng.Float64() < d.miss {
+			only := -1
+			if rng.Intn(10) == 0 {
+				only = rng.Intn(len(defs)) // a line with exactly one key=value pair
+			}
+			for di, d := range defs {
+				if (only >= 0 && di != only) || (only < 0 && rng.Float64() < d.miss) {
 					continue
 				}
 				v := d.gen()
